@@ -633,7 +633,7 @@ func reaches(sc *world.Scenario, id, kind string) bool {
 // C07 L1: temperature ramps through the closed loop (direct algorithm)
 
 func genC07Loop(seed uint64, tier string) *world.Scenario {
-	sc := genLoop("c07loop", seed, tier, loopOpts{kinds: []string{"hwmon", "hwmon", "file"}, directOnly: true, neverStopP: 0.4, maxFans: 1, horizonLo: 60, horizonHi: 120})
+	sc := genLoop("c07loop", seed, tier, loopOpts{kinds: []string{"hwmon", "hwmon", "file"}, directOnly: true, neverStopP: 0.4, maxFans: 1, horizonLo: 60, horizonHi: 120, dropoutP: 0.5})
 	r := kernel.NewRand(seed, "c07loop.extra")
 	sc.TempWin = 1
 	sc.TempPoll = sc.Tick
@@ -705,7 +705,7 @@ func runC07Loop(t *testing.T, sc *world.Scenario) *check.Result {
 // must not be lower.
 
 func genC07Twin(seed uint64, tier string) *world.Scenario {
-	sc := genLoop("c07twin", seed, tier, loopOpts{kinds: []string{"hwmon", "hwmon", "file"}, directOnly: true, neverStopP: 0.3, maxFans: 1, horizonLo: 8, horizonHi: 12})
+	sc := genLoop("c07twin", seed, tier, loopOpts{kinds: []string{"hwmon", "hwmon", "file"}, directOnly: true, neverStopP: 0.3, maxFans: 1, horizonLo: 8, horizonHi: 12, dropoutP: 0.5})
 	r := kernel.NewRand(seed, "c07twin.extra")
 	sc.TempWin = 1
 	sc.TempPoll = sc.Tick
